@@ -535,6 +535,8 @@ pub struct RunReport {
     pub emits: u64,
     pub probes: BTreeMap<String, u64>,
     pub cells: Vec<String>,
+    /// names of environment variables the process asked for during the run (not RUST_*)
+    pub env_reads: Vec<String>,
     /// the child died or stalled
     pub crashed: Option<String>,
     pub stalled: Option<String>,
@@ -549,7 +551,7 @@ impl RunReport {
             "steps": self.steps, "switches": self.switches, "switches_in_call": self.switches_in_call, "capped": self.capped,
             "choices": rle(&self.choices),
             "calls": self.calls, "calls_ok": self.calls_ok, "calls_err": self.calls_err, "calls_injected": self.calls_injected, "emits": self.emits,
-            "probes": self.probes, "cells": self.cells, "stalled": self.stalled,
+            "probes": self.probes, "cells": self.cells, "stalled": self.stalled, "env_reads": self.env_reads,
         })
     }
     fn from_json(v: &Value) -> Option<RunReport> {
@@ -570,6 +572,7 @@ impl RunReport {
             emits: v.get("emits")?.as_u64()?,
             probes: v.get("probes")?.as_object()?.iter().map(|(k, x)| (k.clone(), x.as_u64().unwrap_or(0))).collect(),
             cells: v.get("cells")?.as_array()?.iter().filter_map(|c| c.as_str().map(String::from)).collect(),
+            env_reads: v.get("env_reads").and_then(|e| e.as_array()).map(|a| a.iter().filter_map(|x| x.as_str().map(String::from)).collect()).unwrap_or_default(),
             crashed: None,
             stalled: v.get("stalled").and_then(|s| s.as_str()).map(String::from),
         })
@@ -729,8 +732,22 @@ fn judge(run: &E1Run, out: &RunOutput, isos: &[Vec<Arc<Iso>>], pool: &PoolMap, r
     v
 }
 
+/// Ask the interposer (if loaded) to log intercepted calls of this process to `fd`.
+fn trace_to(fd: i32) -> bool {
+    let name = std::ffi::CString::new("simio_trace_to").unwrap();
+    let sym = unsafe { libc::dlsym(libc::RTLD_DEFAULT, name.as_ptr()) };
+    if sym.is_null() {
+        return false;
+    }
+    let f: extern "C" fn(i32) = unsafe { std::mem::transmute(sym) };
+    f(fd);
+    true
+}
+
 fn child_body(run: &E1Run, isos: &[Vec<Arc<Iso>>], raw_fd: i32) -> RunReport {
     run.ambient.apply();
+    let trace_fd = oracle::memfd("run-trace");
+    let tracing = trace_to(trace_fd);
     let pool = Arc::new(build_pool(run));
     let chooser = match &run.schedule {
         Some(list) => Chooser::replay(list.clone()),
@@ -749,6 +766,23 @@ fn child_body(run: &E1Run, isos: &[Vec<Arc<Iso>>], raw_fd: i32) -> RunReport {
     let _ = std::io::stdout().flush();
     let raw = String::from_utf8_lossy(&oracle::read_fd_all(raw_fd)).into_owned();
     let mut rep = RunReport::default();
+    let mut effects: Vec<String> = Vec::new();
+    if tracing {
+        trace_to(-1);
+        let trace = String::from_utf8_lossy(&oracle::read_fd_all(trace_fd)).into_owned();
+        for line in trace.lines() {
+            if let Some(name) = line.strip_prefix("getenv ") {
+                if !name.starts_with("RUST_") && !rep.env_reads.iter().any(|n| n == name) && rep.env_reads.len() < 8 {
+                    rep.env_reads.push(name.to_string());
+                }
+            } else if ["open ", "openat ", "socket ", "connect ", "unlink ", "rename ", "mkdir ", "fork", "execve "].iter().any(|p| line.starts_with(p)) {
+                // reading /proc is what the supervisor itself does when a thread looks blocked
+                if !line.contains("/proc/self/task/") {
+                    effects.push(line.to_string());
+                }
+            }
+        }
+    }
     rep.event_hash = out.event_hash;
     rep.interleaving_hash = out.interleaving_hash;
     rep.steps = out.steps;
@@ -799,6 +833,18 @@ fn child_body(run: &E1Run, isos: &[Vec<Arc<Iso>>], raw_fd: i32) -> RunReport {
     cells.dedup();
     rep.cells = cells;
     rep.violations = judge(run, &out, isos, &pool, &raw);
+    if let Some(e) = effects.first() {
+        rep.violations.push(Violation {
+            property: "C17".into(),
+            class: "evaluation-touches-files-sockets-or-processes".into(),
+            thread: 0,
+            op_idx: 0,
+            op: None,
+            expected: "no file, socket or process system call while the calls run".into(),
+            got: e.clone(),
+            needs: "history-or-schedule".into(),
+        });
+    }
     rep
 }
 
